@@ -135,7 +135,8 @@ def mismatch(obs, exp, rtol=1e-12, atol=0.0):
     bad = no != ne
     fin = ~no & ~ne
     with np.errstate(all="ignore"):
-        close = (o == e) | (np.abs(o - e) <= rtol * np.maximum(np.abs(o), np.abs(e)) + atol)
+        both_finite = np.isfinite(o) & np.isfinite(e)  # an infinity is only ever equal to the same infinity
+        close = (o == e) | (both_finite & (np.abs(o - e) <= rtol * np.maximum(np.abs(o), np.abs(e)) + atol))
     return bad | (fin & ~close)
 
 
@@ -189,4 +190,6 @@ def selftest():
     assert reduce_members("var", v[:, [0, 2]], ddof=1)[0][0] == 2.0
     assert not mismatch(np.array([np.nan, np.inf, 1.0]), np.array([np.nan, np.inf, 1.0])).any()
     assert mismatch(np.array([np.nan, 1.0]), np.array([0.0, 1.0]))[0]
+    assert mismatch(np.array([-np.inf, np.inf]), np.array([-5.0, 1e300]), rtol=1e-9).all()
+    assert not mismatch(np.array([-np.inf, np.inf]), np.array([-np.inf, np.inf]), rtol=1e-9).any()
     return True
